@@ -225,6 +225,23 @@ pub fn large_cases(ctx: &Ctx) -> Vec<RtCase> {
             v.push(RtCase { l: logical::dense(*n, ctx.seed + k as u64, internal), asyncw: (k + usize::from(internal)) % 2 == 0, open_async: k == 1 });
         }
     }
+    // more than 2^16 tiles / entries in one archive, and tiles around 2^20 (thorough: 2^24) bytes
+    for (k, n) in [70_000usize, 140_000].iter().enumerate() {
+        if k == 1 && ctx.tier == crate::engine::Tier::Quick {
+            continue;
+        }
+        v.push(RtCase { l: logical::large(*n, ctx.seed + 77 + k as u64, 2 + (k % 3) as u8), asyncw: k == 1, open_async: false });
+    }
+    for (k, big) in [1_048_577u32, 16_777_217].iter().enumerate() {
+        if k == 1 && ctx.tier == crate::engine::Tier::Quick {
+            continue;
+        }
+        let mut l = logical::large(40, ctx.seed + 90 + k as u64, 1 + (k % 4) as u8);
+        l.pool[0] = crate::model::ContentSpec { kind: 0, len: *big, seed: 3 };
+        l.tiles[5].1 = 0;
+        l.tiles[20].1 = 0;
+        v.push(RtCase { l, asyncw: k == 0, open_async: k == 0 });
+    }
     for n in [4063usize, 4064, 4065, 4080, 4095, 4096] {
         v.push(RtCase { l: logical::dense(n, ctx.seed + n as u64, 1), asyncw: n % 2 == 0, open_async: false });
     }
